@@ -117,7 +117,7 @@ def visit (g : Graph) (src : List Nat) (isPrefix : Bool) (start : Nat)
     | none => (.stop (.action off ctx tokEnd), tr)
   | none =>
     let tr := tr ++ [.read off 1 false]
-    if !sd.normal.isEmpty && isPrefix then (.stop .needMore, tr ++ [.end start])
+    if (!sd.normal.isEmpty || sd.eoi.isSome) && isPrefix then (.stop .needMore, tr ++ [.end start])
     else if st == g.root && start == off then (.stop .endOfInput, tr)
     else match sd.eoi with
       | some t => (.goto t (off+1) ctx tokEnd, tr)
